@@ -78,6 +78,12 @@ def main(tier, replay):
         if infos[n]['ok'] and (not quick or gnodes[n] <= 3):
             jobs.append({'name': 'gram-%s-file' % n, 'pkg': 'scratch/' + n, 'func': 'HarnessFile', 'args': [1, 1, -1, 2, 1, 0, 0, 1000, 0],
                          'opt': {'stub': c02.nostats(n)}})
+    # one page of 8200 records of one structure: each level stream is a single RLE run of 8200 (three-byte run header)
+    if 'flat_int64' in P:
+        for fs in ((1,) if quick else (0, 1, 2)):
+            jobs.append({'name': 'file-run8200-flat_int64-fs%d' % fs, 'pkg': 'scratch/flat_int64', 'func': 'HarnessFile', 'args': [0, 8200 if fs < 2 else 4100, fs, 1, 1, 0, 0, 10000, 0],
+                         'opt': {'stub': c02.nostats('flat_int64') + ['(*scratch/flat_int64.int64stats).add', '(*scratch/flat_int64.int64optionalStats).add'],
+                                 'max_steps': 600000000, 'max_alloc': 400000}})
     jobs.append({'name': 'sens-file', 'pkg': 'scratch/p4', 'func': 'HarnessFile', 'args': [0, 2, 1, 1, 1, 0, 0, 1000, 1], 'opt': {'stub': c02.nostats('p4')},
                  'expect': 'values stored in the pages'})
     first = len(c.jobs)
@@ -117,6 +123,7 @@ def main(tier, replay):
     c.bounds = {'records': '2 structurally free records per program (person/document: 1 free + 1 fixed, both orders)', 'lists': '<= %d' % ML,
                 'programs': 'core catalogue (%d) + all %d grammar shapes with groups (<= %d nodes, depth <= 3)' % (len(P), len(G), 3 if quick else 4),
                 'file level': 'every nested program and grammar shape also written to a file (1 free + 1 fixed record, lists <= 2, one page per chunk, uncompressed) whose pages are decoded by the specification alone (level bit width from the schema maxima) and compared with the reference striping',
+                'long runs': 'one page of 8200 records of one structure (level streams that are a single RLE run with a three-byte header)',
                 'outside': 'lists longer than %d; nesting deeper than the catalogue' % ML}
     c.assumptions = ['reference striper written from the Dremel paper (fig. 4) over a value tree built by catalogue-generated conversion code; expected schema comes from the catalogue description, not from parquetgen',
                      'string statistics accumulators stubbed (irrelevant to striping, decided by C12)']
